@@ -658,9 +658,15 @@ def xyz_frames(text):
             label = int(tok[1])
             first = float(lines[k + 2].split()[1]) if n > 0 else None
         except (ValueError, IndexError):
-            out.append(("malformed", k, None))
+            out.append(("malformed", k, None, None))
             break
-        out.append((label, n, first))
+        etot = None
+        if "=" in tok:
+            try:
+                etot = float(tok[tok.index("=") + 1])
+            except (ValueError, IndexError):
+                etot = None
+        out.append((label, n, first, etot))
         k += 2 + n
     return out
 
@@ -696,9 +702,14 @@ def compare_more(fs, events, output, steps, after=0, first_mol=None):
         if [f[0] for f in fr] != want:
             msgs.append(f"xyz: trajectory of molecule {mol} holds frames labelled {[f[0] for f in fr]}, the cadence {xe} asks for {want}")
             continue
-        for lab, n, first in fr:
+        for lab, n, first, etot in fr:
             if n != nat or first is None or abs(first - float(stamp("coordinates", lab)[mol, 0, 0])) > 0.5:
                 msgs.append(f"xyz: the frame labelled step {lab} of molecule {mol} does not hold that step's coordinates of the molecule's {nat} real atoms")
+                break
+            want_e = float(scalar_stamp(5, lab)[mol] + scalar_stamp(6, lab)[mol])
+            if etot is not None and abs(etot - want_e) > 0.5:
+                msgs.append(f"xyz: the frame labelled step {lab} of molecule {mol} carries a total energy that is not that step's kinetic + potential energy of the molecule "
+                            f"(it shows {etot:.0f}; the energies of step {lab} are stamped {want_e:.0f}): the energy written with a frame depends on when another stream last asked for it")
                 break
     h5 = output.get("h5", {})
     td, d = int(h5.get("transition_density_matrices", 0)), int(h5.get("data", 0))
